@@ -3,8 +3,18 @@
    is rejected, with a concrete fault position as witness. *)
 From MV Require Import C18.Model C18.Proofs C18.Instances.
 
-(* the recorded known finding: muggle_socket_evloop_add_ctx returns void *)
+(* the recorded known findings: the API cannot / does not report the failure
+   44  muggle_socket_evloop_add_ctx returns void
+   305 muggle_log_complicated_init drops the result of muggle_log_file_time_rot_handler_init *)
 Definition in_known_class_void_add_ctx (id : nat) : bool := Nat.eqb id 44.
+Definition in_known_class_complicated_init (id : nat) : bool := Nat.eqb id 305.
+Definition in_known_class (id : nat) : bool := in_known_class_void_add_ctx id || in_known_class_complicated_init id.
+
+(* the property WITHOUT its "reports failure" clause - every other clause (no crash, nothing leaked, the failed call
+   changed nothing, safe to destroy, safe to retry, destroy releases all) is kept; run_scn does not depend on s_reports *)
+Definition no_report (sc : scn) : scn :=
+  mkscn (s_pre sc) (s_op sc) (s_destroy sc) (s_owns sc) false (s_retains sc) (s_dfail sc) (s_values sc)
+        (s_retry sc) (s_cont sc).
 
 (* generic sweeps over a table, for an abstract per-scenario test (kept abstract so that
    no conversion ever unfolds the checker on a variable) *)
@@ -12,9 +22,9 @@ Section Sweep.
   Variable W : scn -> bool.
   Variable V : scn -> nat -> bool.
   Definition repaired_ok (p : nat * scn) : bool :=
-    (100 <=? fst p) || in_known_class_void_add_ctx (fst p) || W (snd p).
+    orig_id (fst p) || (if in_known_class (fst p) then W (no_report (snd p)) else W (snd p)).
   Definition orig_refuted_b (p : nat * scn) : bool :=
-    (fst p <? 100) || existsb (V (snd p)) (seq 0 16).
+    negb (orig_id (fst p)) || existsb (V (snd p)) (seq 0 16).
 
   Lemma lookup_in id : forall t sc, lookup id t = Some sc -> In (id, sc) t.
   Proof.
@@ -25,23 +35,22 @@ Section Sweep.
   Qed.
 
   Lemma sweep_repaired t : forallb repaired_ok t = true -> forall id sc,
-    lookup id t = Some sc -> id < 100 -> in_known_class_void_add_ctx id = false -> W sc = true.
+    lookup id t = Some sc -> orig_id id = false ->
+    W (if in_known_class id then no_report sc else sc) = true.
   Proof.
-    intros T id sc H Hlt Hk. apply lookup_in in H.
+    intros T id sc H Ho. apply lookup_in in H.
     rewrite forallb_forall in T. apply T in H.
-    unfold repaired_ok in H. cbn [fst snd] in H. rewrite Hk in H.
-    assert (E : (100 <=? id) = false) by (apply Nat.leb_gt; exact Hlt).
-    rewrite E in H. exact H.
+    unfold repaired_ok in H. cbn [fst snd] in H. rewrite Ho in H. cbn [orb] in H.
+    destruct (in_known_class id); exact H.
   Qed.
 
   Lemma sweep_orig t : forallb orig_refuted_b t = true -> forall id sc,
-    lookup id t = Some sc -> 100 <= id -> exists k, V sc k = true.
+    lookup id t = Some sc -> orig_id id = true -> exists k, V sc k = true.
   Proof.
-    intros T id sc H Hge. apply lookup_in in H.
+    intros T id sc H Ho. apply lookup_in in H.
     rewrite forallb_forall in T. apply T in H.
     unfold orig_refuted_b in H. cbn [fst snd] in H.
-    assert (E : (id <? 100) = false) by (apply Nat.ltb_ge; exact Hge).
-    rewrite E in H. cbn [orb] in H. apply existsb_exists in H. destruct H as [k [_ Hv]].
+    rewrite Ho in H. cbn [negb orb] in H. apply existsb_exists in H. destruct H as [k [_ Hv]].
     exists k. exact Hv.
   Qed.
 End Sweep.
@@ -52,17 +61,58 @@ Proof. vm_compute. reflexivity. Qed.
 Lemma table_orig_refuted : forallb (orig_refuted_b violates) inst_table = true.
 Proof. vm_compute. reflexivity. Qed.
 
-Lemma instances_wf id sc :
-  inst_by_id id = Some sc -> id < 100 -> in_known_class_void_add_ctx id = false -> wf_scn sc = true.
+Lemma instances_wf_gen id sc :
+  inst_by_id id = Some sc -> orig_id id = false ->
+  wf_scn (if in_known_class id then no_report sc else sc) = true.
 Proof. exact (sweep_repaired wf_scn inst_table table_repaired_ok id sc). Qed.
 
-(* P_partial of the known-finding pattern *)
+Lemma instances_wf id sc :
+  inst_by_id id = Some sc -> orig_id id = false -> in_known_class id = false -> wf_scn sc = true.
+Proof. intros H1 H2 H3. pose proof (instances_wf_gen id sc H1 H2) as W. rewrite H3 in W. exact W. Qed.
+
+(* P_partial of the known-finding pattern: outside the known classes the full property; INSIDE them everything
+   but the "reports failure" clause (no crash, no leak, unchanged, safe to destroy / retry, destroy releases all) *)
+Lemma instances_hold_gen id sc f :
+  inst_by_id id = Some sc -> orig_id id = false -> holds (if in_known_class id then no_report sc else sc) f.
+Proof. intros H1 H2. apply wf_sound. exact (instances_wf_gen id sc H1 H2). Qed.
+
 Lemma instances_hold id sc f :
-  inst_by_id id = Some sc -> id < 100 -> in_known_class_void_add_ctx id = false -> holds sc f.
+  inst_by_id id = Some sc -> orig_id id = false -> in_known_class id = false -> holds sc f.
 Proof. intros H1 H2 H3. apply wf_sound. exact (instances_wf id sc H1 H2 H3). Qed.
 
+(* the same runs, read without the reporting clause: what the known-class instances still guarantee *)
+Lemma known_class_instances_hold id sc f :
+  inst_by_id id = Some sc -> in_known_class id = true ->
+  let o := run_scn sc f in
+  o_bad o = false /\ o_dbad o = false /\ o_dlive o = [] /\
+  (hit f (o_att o) = false -> o_rc o = Ok /\ (forall r, In r (o_live o) <-> In r (s_owns sc))) /\
+  (hit f (o_att o) = true -> forall r, In r (o_live o) <-> In r (o_base o)).
+Proof.
+  intros H1 H2. cbv zeta.
+  assert (Ho : orig_id id = false).
+  { unfold in_known_class, in_known_class_void_add_ctx, in_known_class_complicated_init in H2.
+    apply orb_prop in H2. destruct H2 as [E|E]; apply Nat.eqb_eq in E; subst id; reflexivity. }
+  assert (Hr : s_retains sc = false).
+  { unfold in_known_class, in_known_class_void_add_ctx, in_known_class_complicated_init in H2.
+    apply orb_prop in H2. destruct H2 as [E|E]; apply Nat.eqb_eq in E; subst id;
+      vm_compute in H1; inversion H1; reflexivity. }
+  pose proof (instances_hold_gen id sc f H1 Ho) as Hh. rewrite H2 in Hh.
+  unfold holds in Hh. cbv zeta in Hh.
+  change (run_scn (no_report sc) f) with (run_scn sc f) in Hh.
+  change (s_owns (no_report sc)) with (s_owns sc) in Hh.
+  change (s_retains (no_report sc)) with (s_retains sc) in Hh.
+  destruct Hh as [H0 Hf].
+  destruct (hit f (o_att (run_scn sc f))) eqn:Eh.
+  - destruct (Hf eq_refl) as [_ [B [C [D [E _]]]]].
+    split; [exact B|]. split; [exact D|]. split; [exact E|]. split; [discriminate|].
+    intros _. exact (C Hr).
+  - destruct (H0 eq_refl) as [A [B [C [D [E _]]]]].
+    split; [exact B|]. split; [exact D|]. split; [exact E|]. split; [|discriminate].
+    intros _. split; [exact A|exact C].
+Qed.
+
 Lemma orig_instances_refuted id sc :
-  inst_by_id id = Some sc -> 100 <= id -> exists k, ~ holds sc (single k).
+  inst_by_id id = Some sc -> orig_id id = true -> exists k, ~ holds sc (single k).
 Proof.
   intros H Hge.
   destruct (sweep_orig violates inst_table table_orig_refuted id sc H Hge) as [k V].
@@ -108,6 +158,21 @@ Proof.
   exists 44, i_seh_add_ctx, 0. split; [reflexivity|]. split; [reflexivity|].
   apply violates_not_holds. vm_compute. reflexivity.
 Qed.
+
+(* P_refuted of the second known finding: fopen of the time-rotating file fails, muggle_log_complicated_init
+   answers 0 *)
+Lemma complicated_init_refuted :
+  exists id sc k, in_known_class_complicated_init id = true /\ inst_by_id id = Some sc /\
+                  ~ holds sc (single k) /\ o_rc (run_scn sc (single k)) = Ok /\
+                  hit (single k) (o_att (run_scn sc (single k))) = true.
+Proof.
+  exists 305, i_log_complicated_init, 0. split; [reflexivity|]. split; [reflexivity|].
+  split; [apply violates_not_holds; vm_compute; reflexivity|]. split; vm_compute; reflexivity.
+Qed.
+
+(* ... and the proposed repair satisfies the full property *)
+Lemma complicated_init_fixed_wf : wf_scn i_log_complicated_init_fixed = true.
+Proof. vm_compute. reflexivity. Qed.
 
 (* ---------- named witnesses for the defects of the unchanged code ---------- *)
 
@@ -183,4 +248,24 @@ Proof. vm_compute. repeat split; reflexivity. Qed.
 
 Example pipe_init_one_call_two_fds :
   let o := run_scn i_seh_pipe_init no_fault in o_att o = 1 /\ length (o_live o) = 2 /\ o_dlive o = [].
+Proof. vm_compute. repeat split; reflexivity. Qed.
+
+(* ---------- "safe to retry" and continued use are not vacuous ---------- *)
+
+Example stack_push_grow_retry_and_continue :       (* the growth allocation of muggle_stack_push fails *)
+  let o := run_scn i_stack_push_grow (single 0) in
+  s_retry i_stack_push_grow = true /\ s_cont i_stack_push_grow <> [] /\
+  o_rc o = Fail /\ o_kept o = true /\ o_retry_ok o = true /\ o_cont_ok o = true /\ o_rdlive o = [] /\ o_dlive o = [].
+Proof. vm_compute. repeat split; try reflexivity. discriminate. Qed.
+
+Example retry_finds_what_destroy_after_failure_does_not :
+  (* muggle_double_buffer_init of the unchanged tree: the retry overwrites the dangling pointer (future B is clean),
+     the destroy that follows the failure directly double-frees (future A) - both futures are needed *)
+  let o := run_scn i_dbuf_orig (single 1) in o_rdbad o = false /\ o_rdlive o = [] /\ o_dbad o = true.
+Proof. vm_compute. repeat split; reflexivity. Qed.
+
+Example memory_pool_alloc_grow_retry :
+  let o := run_scn i_mpool_alloc_grow (single 2) in
+  o_rc o = Fail /\ o_att o = 3 /\ o_kept o = true /\ o_retry_ok o = true /\ o_cont_ok o = true /\
+  length (o_clive o) = 4 /\ o_rdlive o = [].
 Proof. vm_compute. repeat split; reflexivity. Qed.
